@@ -266,6 +266,54 @@ theorem C13_version_enforced (n : Net) (t : Int) (p : Peer) (services : Nat) (k 
   · intro hr
     simp only [stepNet, hp, ↓reduceIte, hr]
 
+/-- **… and this is settled at the version message, whatever the peer does next.**  The handshake is a sequence
+of steps (`outbound`, `version`, then — only if the peer sends its verack — `addPeer`); a peer can stop after any of
+them.  Once `OnVersion` has seen service bits lacking WITNESS or CF, at every later time within the ban duration the
+address is reported banned, the socket is in neither set (so no later step can hand it a request: requests go to
+`connected` peers only), a late `addPeer` for it is a no-op and its going away (`done`) changes nothing: no step the
+peer can withhold (verack) or pre-empt (hanging up) is needed for the ban. -/
+theorem C13_version_enforced_stalled (n : Net) (t t' : Int) (p : Peer) (services : Nat) (k : Bytes)
+    (hp : p ∈ n.pending) (hk : keyOf p.target = some k) (hr : hasRequired services = false)
+    (h1 : t ≤ t') (h2 : t' < t + banDurationMs - 1000) :
+    let n' := stepNet n t (.version p services)
+    (isBanned n'.store t' p).2 = true ∧ p ∉ n'.pending ∧ p ∉ n'.connected ∧
+    stepNet n' t' (.addPeer p) = n' ∧
+    (isBanned (stepNet n' t' (.done p)).store t' p).2 = true ∧ p ∉ (stepNet n' t' (.done p)).connected := by
+  have hst : step (step n.store t (.ban p.target reasonNoCompactFilters banDurationMs)).1 t' (.status p.target) =
+      ((step n.store t (.ban p.target reasonNoCompactFilters banDurationMs)).1,
+       .banned reasonNoCompactFilters ((t + banDurationMs) / 1000 * 1000)) := by
+    rw [step_status_some _ _ _ k hk, step_ban_some _ _ _ _ _ k hk]
+    simp only [lookup_put_self]
+    have : ¬ (t' ≥ (t + banDurationMs) / 1000 * 1000) := by simp only [banDurationMs] at h2 ⊢; omega
+    simp only [this, ↓reduceIte]
+  have hb : (isBanned (step n.store t (.ban p.target reasonNoCompactFilters banDurationMs)).1 t' p).2 = true := by
+    simp only [isBanned, hst]
+  have hnp : p ∉ without (banPeer n t p reasonNoCompactFilters).pending p := not_mem_without _ _
+  simp only [stepNet, hp, ↓reduceIte, hr, Bool.false_eq_true, banPeer] at hnp ⊢
+  refine ⟨hb, not_mem_without _ _, not_mem_afterBan _ _, ?_, hb, ?_⟩
+  · simp only [hnp, ↓reduceIte]
+  · intro hc
+    exact not_mem_afterBan _ _ (List.mem_filter.mp hc).1
+
+/-- The seeded ordering (C13g-2: the service-bit test deferred from `OnVersion` to `handleAddPeerMsg`) is refuted by
+the two peers the deferred test never sees: one that sends its version and withholds its verack (no `addPeer` ever),
+and one that hangs up before the peer handler gets to it (`done` before `addPeer`; `handleAddPeerMsg` returns early).
+Neither is ever banned; the first one even keeps its socket. -/
+theorem C13_version_deferred_counterexample :
+    let svc : Peer → Nat := fun _ => 1037
+    let stalled := runNetDeferred svc {} [(0, .outbound exPeerA), (1, .version exPeerA 1037)]
+    let hungUp := runNetDeferred svc {} [(0, .outbound exPeerA), (1, .version exPeerA 1037), (2, .done exPeerA), (3, .addPeer exPeerA)]
+    hasRequired 1037 = false ∧
+    (isBanned stalled.store 5000 exPeerA).2 = false ∧ exPeerA ∈ stalled.pending ∧
+    (isBanned hungUp.store 5000 exPeerA).2 = false ∧
+    -- the code as it is: banned from the version message on, in both histories
+    (isBanned (runNet {} [(0, .outbound exPeerA), (1, .version exPeerA 1037)]).store 5000 exPeerA).2 = true ∧
+    (isBanned (runNet {} [(0, .outbound exPeerA), (1, .version exPeerA 1037), (2, .done exPeerA), (3, .addPeer exPeerA)]).store 5000 exPeerA).2 = true := by
+  decide
+
+example : (0 : Int) ≤ 5000 ∧ (5000 : Int) < 0 + banDurationMs - 1000 ∧ hasRequired 1037 = false ∧
+    exPeerA ∈ (stepNet {} 0 (.outbound exPeerA)).pending := by decide
+
 /-- After `BanPeer` (from any of the misbehaviour sites) the peer is not
 connected and its address is banned with the given reason. -/
 theorem C13_banPeer_enforced (n : Net) (t : Int) (p : Peer) (reason : Nat) (k : Bytes)
